@@ -196,6 +196,8 @@ def _build_hang(M, fam, env, dz, ox, oy, oz):
         for i in range(len(dist[s]) - 1):
             ring.append(nd(inner_key(s, i), point(s, dist[s][i])))
     cnames = iter(_names(30))
+    rot = fam.get('rot', 0) % len(ring)      # which node the centre column's node list starts at
+    ring = ring[rot:] + ring[:rot]
     geo.add_column(M.column(next(cnames), ring))
     for s in range(4):
         if not hang[s]: continue
@@ -261,6 +263,7 @@ def apply_step(M, geo, step):
         if step['name'] in geo.well: return geo.delete_well(step['name'])
         return None
     if k == 'reduce': return geo.reduce(list(step['cols']))
+    if k == 'check_fix': return geo.check(fix=True, silent=True)
     if k == 'snap': return geo.snap_columns_to_layers(step['min_thickness'], list(step.get('cols', [])))
     if k == 'snap_nearest': return geo.snap_columns_to_nearest_layers(list(step.get('cols', [])))
     if k == 'translate': return geo.translate(list(step['shift']))
@@ -274,4 +277,4 @@ def apply_step(M, geo, step):
 
 # ops that promise a valid mesh afterwards (connections rebuilt)
 PROMISES_CONNECTIONS = ('refine', 'split', 'decompose')
-PROMISES_VALID_MESH = ('refine', 'split', 'decompose', 'reduce')
+PROMISES_VALID_MESH = ('refine', 'split', 'decompose', 'reduce', 'check_fix')
